@@ -143,6 +143,48 @@ def run(ck, prog, tier, load):
     ck.ob("C17-c.idle-connections-counted", "PooledConnection", holds, None, None,
           "an idle pooled connection holds no semaphore permit (fields: %s): with limit(n) the pool may keep more than n connections OPEN at once (n in use + any number idle to other authorities)" % ftys)
 
+    # ---- (d) the client codec's per-exchange state: what decides "persistent connection" and "this response has a body"
+    cdec = prog.one(r"^<actix_http::h1::client::ClientCodec as tokio_util::codec::decoder::Decoder>::decode$")
+    cenc = prog.one(r"^<actix_http::h1::client::ClientCodec as tokio_util::codec::encoder::Encoder<.*>>::encode$")
+    CT = r"\.actix_http::h1::client::ClientCodecInner\.conn_type$"
+    ctw = [(bb, s) for bb, i, s in cdec.assigns() if any(isinstance(x, str) and rx(CT).search(x) for x in s["p"][1:])]
+    ck.anchor("C17-d", len(ctw), 1, "write of ClientCodecInner.conn_type in ClientCodec::decode")
+    for bb, s in ctw:
+        # the value is a choice: the response's own connection type unless the response says keep-alive
+        l = s["rv"]["ops"][0].get("copy", s["rv"]["ops"][0].get("move", [None]))[0] if s["rv"]["k"] == "use" else None
+        alts = cdec.defs().get(l, []) if l is not None else []
+        ok_close = ok_ka = False
+        for d in alts:
+            e = cdec.def_expr(d, 6)
+            is_ka_edge = [lab for c, lab, a in cdec.guards(d[1]) if c[0] == "call" and rx(r"PartialEq>::eq$").search(c[1] or "") and e_calls(c, r"ResponseHead::conn_type$") and any(is_agg(x, r"ConnectionType::KeepAlive$") for x in walk(c))]
+            if is_ka_edge and is_ka_edge[0] is False:
+                ok_close = bool(e_calls(e, r"ResponseHead::conn_type$")) and not e_has_field(e, CT)
+            if is_ka_edge and is_ka_edge[0] is True:
+                ok_ka = e_has_field(e, CT) and not e_calls(e, r"ResponseHead::conn_type$")
+        ck.ob("C17-d.response-close-wins", "ClientCodec::decode", ok_close and ok_ka, cdec, bb,
+              "when the response announces a connection type other than keep-alive the codec adopts it (the connection is not reused); the peer's keep-alive never upgrades a request that asked for close (close edge takes the response's value: %s, keep-alive edge keeps the request's: %s)" % (ok_close, ok_ka))
+    pw = [(bb, s, cdec.rv_expr(s["rv"], 4)) for bb, i, s in cdec.assigns() if any(isinstance(x, str) and x.endswith("ClientCodecInner.payload") for x in s["p"][1:])]
+    ck.anchor("C17-d", len(pw), 3, "writes of ClientCodecInner.payload in ClientCodec::decode")
+    from ..h1 import flag_edge  # noqa
+    for bb, s, e in pw:
+        head_t = any(c[0] == "call" and rx(r"::contains$").search(c[1] or "") and e_has_const(c, r"::HEAD$") and lab is True for c, lab, a in cdec.guards(bb))
+        if is_agg(e, r"Option::Some$"):
+            ck.ob("C17-d.head-response-has-no-body", "ClientCodec::decode|Some", not head_t and any(c[0] == "call" and rx(r"::contains$").search(c[1] or "") and e_has_const(c, r"::HEAD$") and lab is False for c, lab, a in cdec.guards(bb)), cdec, bb,
+                  "a payload decoder is installed only when the request was not HEAD (a HEAD response's Content-Length describes no bytes on the wire)")
+    some_ret = [bb for bb, e in cdec.ret_exprs() if agg_chain(e)[0][:2] == ["core::result::Result::Ok", "core::option::Option::Some"]]
+    ok = bool(some_ret) and cdec.must_pass([0], some_ret, [bb for bb, s, e in pw])[0]
+    ck.ob("C17-d.payload-slot-rewritten", "ClientCodec::decode", ok, cdec, some_ret[0] if some_ret else None, "every decoded response head rewrites the payload slot (no decoder of an earlier exchange survives)")
+    # encode(Item): HEAD flag and connection type recomputed for every request
+    item_edge = [tb for a in cenc.live for br in [cenc.branch(a)] if br and br[0][0] == "discr" for lab, tb in br[1] if lab == "Item"]
+    ck.anchor("C17-d", len(item_edge), 1, "Message::Item arm of ClientCodec::encode")
+    enc_calls = [bb for bb, t in cenc.calls(r"MessageEncoder(<T>)?::encode$")]
+    sets = [bb for bb, t in cenc.calls(r"client::_::set$") if e_has_const(cenc.op_expr(t["args"][1]), r"::HEAD$") and cenc.op_expr(t["args"][2], 4)[0] != "const"]
+    ok = bool(sets) and bool(enc_calls) and cenc.must_pass(item_edge, enc_calls, sets)[0]
+    ck.ob("C17-d.head-flag-recomputed", "ClientCodec::encode", ok, cenc, sets[0] if sets else None, "the HEAD flag is recomputed (flags.set(HEAD, method == HEAD)) for every request written: it decides whether the next response is read with a body")
+    ctw2 = [bb for bb, i, s in cenc.assigns() if any(isinstance(x, str) and rx(CT).search(x) for x in s["p"][1:])]
+    ok = bool(ctw2) and bool(enc_calls) and cenc.must_pass(item_edge, enc_calls, ctw2)[0]
+    ck.ob("C17-d.conn-type-recomputed", "ClientCodec::encode", ok, cenc, ctw2[0] if ctw2 else None, "the connection type is recomputed from every request written (a `close` of an earlier exchange does not linger, a keep-alive is not inherited)")
+
 
 def lab_any(edges, name):
     return any(lab == name for lab, tb in edges)
